@@ -362,8 +362,8 @@ class FQA:
         c_phi = 0.0 if is_singular else -a_z/c_theta                # (eq. 31)
         c_phi = np.clip(c_phi, -1.0, 1.0)
         sign_s_phi = np.sign(s_phi)
-        if c_phi == -1.0 and s_phi == 0.0:
-            sign_s_phi = 1
+        if s_phi == 0.0:
+            sign_s_phi = 1                                          # Roll of exactly 0 or 180 degrees
         s_phi_2 = sign_s_phi*np.sqrt((1.0-c_phi)/2.0)
         c_phi_2 = np.sqrt((1.0+c_phi)/2.0)
         q_r = Quaternion([c_phi_2, s_phi_2, 0.0, 0.0])              # (eq. 32)
@@ -382,7 +382,8 @@ class FQA:
         Mx, My = em[1:-1] / np.linalg.norm(em[1:-1])                # (eq. 37)
         c_psi, s_psi = np.array([[Mx, My], [-My, Mx]])@N            # (eq. 39)
         c_psi = np.clip(c_psi, -1.0, 1.0)
-        s_psi_2 = np.sign(s_psi)*np.sqrt((1.0-c_psi)/2.0)
+        sign_s_psi = 1 if s_psi == 0.0 else np.sign(s_psi)          # Azimuth of exactly 0 or 180 degrees
+        s_psi_2 = sign_s_psi*np.sqrt((1.0-c_psi)/2.0)
         c_psi_2 = np.sqrt((1.0+c_psi)/2.0)
         q_a = Quaternion([c_psi_2, 0.0, 0.0, s_psi_2])              # (eq. 40)
         # Final Quaternion (eq. 41)
